@@ -4,6 +4,7 @@
 //!   verif-harness replay <ID> <file>            re-execute one saved case
 #![allow(clippy::too_many_arguments, clippy::type_complexity)]
 
+pub mod alloc;
 pub mod choices;
 pub mod curves;
 pub mod drive;
@@ -14,6 +15,9 @@ pub mod props;
 pub mod runner;
 pub mod scalars;
 pub mod tlog;
+
+#[global_allocator]
+static GLOBAL: alloc::Counting = alloc::Counting;
 
 fn main() {
     drive::install_panic_hook();
